@@ -114,3 +114,21 @@ type A struct {
   exists r, nth_error (inject_file f) 1 = Some (Fld r) /\
             f_tag r = Some [(s2b "protobuf", s2b "bytes,1,opt,name=name"); (s2b "json", s2b "n"); (s2b "valid", s2b "required|必填")].
 Proof. vm_compute. repeat split; try congruence. eexists. split; reflexivity. Qed.
+
+(* THE MERGE FROM THE SOURCE TEXT.  fn_tagItems_override is the go/ast syntax tree of (t tagItems) override(inTags)
+   (file/handletag.go), regenerated from /repo on every run.  Under the semantics of Model/GoTags.v (slices as lists —
+   the in-place shift of inTags is not observable, see that file —, a[i].key and a[i:j] with their run-time bounds,
+   append, the two nested range loops with break) it computes the model's override — the function C06_merge and
+   C07_idempotent_merge are about — on EVERY pair of tag lists, each loop by an invariant, and never indexes or slices
+   out of range. *)
+From PGV Require Import Base.MiniGo Extracted.SourceFnsTags Model.GoTags Proofs.GoTagsProofs.
+Theorem C06_merge_from_source : forall t inTags : tagitems,
+  run_override fn_tagItems_override t inTags = Some (override t inTags).
+Proof. exact override_from_source. Qed.
+Print Assumptions C06_merge_from_source.
+
+(* ... and tagItems.format (the text written back between the back quotes: key:value pairs joined by one blank), from its
+   syntax tree, computes the model's format on every tag list *)
+Theorem C06_format_from_source : forall t : tagitems, run_format fn_tagItems_format t = Some (format t).
+Proof. exact format_from_source. Qed.
+Print Assumptions C06_format_from_source.
